@@ -3,7 +3,9 @@ SQLDataStore vs the representation models (Model/Stores.lean `Ram` / `Sql`, driv
 import sqlalchemy as sqla
 
 from google.longrunning import operations_pb2
-from vizier._src.service import custom_errors, ram_datastore, resources, sql_datastore, study_pb2
+from vizier._src.service import custom_errors, ram_datastore, resources, sql_datastore, study_pb2, vizier_oss_pb2, vizier_service_pb2
+
+from vcheck import svc
 
 from vcheck import svcreal
 
@@ -90,6 +92,25 @@ def step(ds, o):
       return [op_json(x) for x in ds.list_suggestion_operations(sname(k), o['client'])]
     if op == 'maxOpNumber':
       return int(ds.max_suggestion_operation_number(sname(k), o['client']))
+    if op in ('createEs', 'updateEs'):
+      e = o['es']
+      name = resources.EarlyStoppingOperationResource(k[0], k[1], e['trial']).name
+      st = vizier_oss_pb2.EarlyStoppingOperation.Status
+      proto = vizier_oss_pb2.EarlyStoppingOperation(name=name, status=st.ACTIVE if e['active'] else st.DONE, should_stop=bool(e['stop']))
+      (ds.create_early_stopping_operation if op == 'createEs' else ds.update_early_stopping_operation)(proto)
+      return 'ok'
+    if op == 'getEs':
+      e = ds.get_early_stopping_operation(resources.EarlyStoppingOperationResource(k[0], k[1], o['id']).name)
+      return {'trial': int(resources.EarlyStoppingOperationResource.from_name(e.name).trial_id),
+              'active': e.status == vizier_oss_pb2.EarlyStoppingOperation.Status.ACTIVE, 'stop': bool(e.should_stop)}
+    if op == 'updateMetadata':
+      study_md = svc.kv_list(o['study'])
+      trial_md = []
+      for tid, md in o['trials']:
+        for kv in svc.kv_list(md):
+          trial_md.append(vizier_service_pb2.UnitMetadataUpdate(trial_id=str(tid), metadatum=kv))
+      ds.update_metadata(sname(k), study_md, trial_md)
+      return 'ok'
     raise ValueError(op)
   except custom_errors.NotFoundError:
     return 'err:notFound'
@@ -114,8 +135,8 @@ class Gen:
   operations so that most calls hit existing objects; `guarded=True` never creates a trial or an
   operation in a study that does not exist (what the service guarantees)."""
 
-  def __init__(self, rng, guarded):
-    self.rng, self.guarded = rng, guarded
+  def __init__(self, rng, guarded, with_extra=True):
+    self.rng, self.guarded, self.with_extra = rng, guarded, with_extra
     self.keys = [('o', 's'), ('o', 's1'), ('p', 's'), ('o', 't')]
     self.live = {}        # key -> {'trials': set, 'ops': {client: [nums]}}
     self.tok = 0
@@ -146,7 +167,7 @@ class Gen:
     if not self.live or x < 0.10:
       k = self.pick_key(want_live=r.random() < 0.25)
       if k not in self.live:
-        self.live[k] = {'trials': set(), 'ops': {}}
+        self.live[k] = {'trials': set(), 'ops': {}, 'es': set()}
       return {'op': 'createStudy', 'k': list(k), 'head': self.head()}
     if x < 0.15:
       return {'op': 'updateStudy', 'k': list(self.pick_key()), 'head': self.head()}
@@ -164,7 +185,7 @@ class Gen:
       k = r.choice(busy)            # reads / updates / deletes: prefer studies that hold something
     if self.guarded and k not in self.live:
       return {'op': 'loadStudy', 'k': list(k)}
-    st = self.live.get(k, {'trials': set(), 'ops': {}})
+    st = self.live.get(k, {'trials': set(), 'ops': {}, 'es': set()})
     ids = sorted(st['trials'])
     some_id = (r.choice(ids) if ids and r.random() < 0.85 else r.randrange(1, 9))
     if x < 0.45:
@@ -183,6 +204,34 @@ class Gen:
       return {'op': 'listTrials', 'k': list(k)}
     if x < 0.78:
       return {'op': 'maxTrialId', 'k': list(k)}
+    if self.with_extra and x >= 0.78 and r.random() < 0.45:
+      y = r.random()
+      es_ids = st.setdefault('es', set()) if k in self.live else set()
+      tid = r.choice(sorted(es_ids)) if es_ids and r.random() < 0.6 else r.randrange(1, 6)
+      es = {'trial': tid, 'active': r.random() < 0.5, 'stop': r.random() < 0.5}
+      if y < 0.30:
+        if k in self.live:
+          es_ids.add(tid)
+        return {'op': 'createEs', 'k': list(k), 'es': es}
+      if y < 0.50:
+        if self.guarded and tid not in es_ids:
+          return {'op': 'getEs', 'k': list(k), 'id': tid}      # the service only updates an operation it fetched
+        if k in self.live:
+          es_ids.add(tid)                                        # RAM upserts
+        return {'op': 'updateEs', 'k': list(k), 'es': es}
+      if y < 0.65:
+        return {'op': 'getEs', 'k': list(k), 'id': tid}
+      # update_metadata: study part + per-trial parts (grouped by trial id, first occurrence order)
+      self.tok += 1
+      def md(lo=0):
+        return [[r.choice(['', ':a', ':a:b']), r.choice(['k', 'k2', 'k3']), 'm%d' % self.tok] for _ in range(r.randrange(lo, 3))]
+      ntr = r.randrange(0, 3)
+      tids = []
+      for _ in range(ntr):
+        t = r.choice(ids) if ids and r.random() < 0.85 else r.randrange(1, 9)
+        if t not in tids:
+          tids.append(t)
+      return {'op': 'updateMetadata', 'k': list(k), 'study': md(), 'trials': [[t, md(1)] for t in tids]}     # a trial is named by at least one entry
     client = r.choice(['w1', 'w2', 'w3'])
     with_ops = [c for c, l in st['ops'].items() if l]
     if with_ops and x >= 0.87 and r.random() < 0.8:
